@@ -1,8 +1,12 @@
 """C01 C02 C03 C04 C08 C09 C10 C17: engine-level properties judged by TLC on Layer-A traces of the real engine."""
 from common import Report
 import engine
+import mc
 
 ASSUME = [
+    "design level: spec/NucsMech.tla (mechanism mirror with contract-level propagators) is model-checked exhaustively "
+    "on problem families whose static data (sorted order, trigger matrix) is exported from the real Problem.init(); "
+    "a model counterexample is concretised on the real engine before it counts",
     "the judge is TLC evaluating spec/NucsAbs.tla; the reference relations come from spec/Constraints.tla",
     "observation is done in interpreted mode (NUMBA_DISABLE_JIT=1, same source as the compiled mode) by registry "
     "interposition from outside the repository; compiled-mode equality is C15's subject",
@@ -15,6 +19,7 @@ def _run(prop, prefixes, what, tier, seed, replay, extra=None):
         return engine.replay_items(replay, prefixes, prop)
     rep = Report(prop, tier, "model_checking")
     engine.report_engine(rep, tier, seed, prop, prefixes, what)
+    mc.report_mc(rep, prop, tier, seed)
     if extra:
         extra(rep, tier, seed)
     rep.assumptions += ASSUME
@@ -81,5 +86,6 @@ def c07(tier, seed, replay):
     engine.report_engine(rep, tier, seed, "C07", ("C07:",), "a constraint disabled by a pass or carried into a pushed "
                          "level is entailed on that level's box; backtracking restores exactly the saved flags")
     rep.cov["rule"] = "CALL HALF: " + call_rule + " ENGINE HALF: " + rep.cov["rule"]
+    mc.report_mc(rep, "C07", tier, seed)
     rep.assumptions += ASSUME
     return rep.finish()
